@@ -30,7 +30,20 @@ class HNodeDC(HNode):
     separator = "::"
 
 
-SEP_CLASSES = {"/": HNode, ";": HNodeSemi, "::": HNodeDC}
+class HNodeEqName(HNode):
+    """Value equality by name length parity: many distinct nodes are equal."""
+
+    def __eq__(self, other):
+        return isinstance(other, HNodeEqName) and len(str(self.name)) % 2 == len(str(other.name)) % 2
+
+    def __ne__(self, other):
+        return not self.__eq__(other)
+
+    def __hash__(self):
+        return len(str(self.name)) % 2
+
+
+SEP_CLASSES = {"/": HNode, ";": HNodeSemi, "::": HNodeDC, "/=": HNodeEqName}
 
 ASCII_NAMES = (
     "a", "A", "b", "aB", "Ab", "ab", "sub0", "sub1", "Sub0", "a.b", "a+b", "a[b]", "(a)", "^a", "a$", "a|b",
@@ -172,7 +185,9 @@ def pattern_flags(path, sep):
 
 def gen_cfg(rng, prop, tier):
     n = rng.randint(1, 12 if tier == "thorough" else 9)
-    sep = rng.choice(("/", "/", ";", "::"))
+    sep = rng.choice(("/", "/", ";", "::", "/="))
+    if rng.random() < (0.03 if tier == "thorough" else 0.015):
+        n = rng.randint(40, 90)  # results with dozens of matches ('**' on a big tree)
     pool = []
     for ic in (False, True):
         for rx in (False, True):
@@ -183,7 +198,7 @@ def gen_cfg(rng, prop, tier):
         pool.append(list(rng.choice(pool)))
     any_ic = any(p[0] for p in pool)
     parents = [None] + [rng.choice([None] * 1 + list(range(i)) * 3) if rng.random() < 0.93 else None for i in range(1, n)]
-    names = names_for(sep, any_ic or rng.random() < 0.5, rng, n)
+    names = names_for(sep.rstrip("="), any_ic or rng.random() < 0.5, rng, n)
     pathattr = "name" if rng.random() < 0.8 else "key"
     keys = [rng.choice((None, 0, 1, 2, 10, "a", "A")) for _ in range(n)]
     return {
@@ -293,8 +308,8 @@ def sibling_unique(snap, names, ignorecase):
 def run(cfg, ops=None, rng=None):
     prop = "C08"
     res = Result()
-    sep = cfg["sep"]
-    cls = SEP_CLASSES[sep]
+    cls = SEP_CLASSES[cfg["sep"]]
+    sep = cls.separator
     pathattr = cfg["pathattr"]
     world = World()
     n = len(cfg["parents"])
@@ -310,6 +325,7 @@ def run(cfg, ops=None, rng=None):
         if p is not None:
             world.nodes[i].parent = world.nodes[p]
     resolvers = [Resolver(pathattr, ignorecase=ic, relax=rx) for ic, rx in cfg["resolvers"]]
+    flags = [list(f) for f in cfg["resolvers"]]
     strict_twin = {}
     old_max = resolver_mod._MAXCACHE
     resolver_mod._MAXCACHE = cfg["maxcache"]
@@ -337,6 +353,9 @@ def run(cfg, ops=None, rng=None):
                         op = {"op": "parent", "n": i, "p": rng.choice(cand)}
                 elif r < cfg["mut"] + 0.04:
                     op = {"op": "maxcache", "v": rng.choice((1, 2, 3, 5, 20))}
+                elif r < cfg["mut"] + 0.07 and not any(len(nm) != len(nm.encode()) for nm in names):
+                    # the flags are public attributes of a resolver: change them on a live instance
+                    op = {"op": "setflag", "r": rng.randrange(len(resolvers)), "ic": rng.random() < 0.5, "rx": rng.random() < 0.5}
                 else:
                     start = rng.randrange(n)
                     if pool and (len(pool) >= cfg["poolsize"] or rng.random() < 0.5):
@@ -365,6 +384,13 @@ def run(cfg, ops=None, rng=None):
                     if invariants.check_forest(world):
                         raise Violation("GUARD", "guard", step, "guard", "forest inconsistent after %r" % (op,))
                 continue
+            if kind == "setflag":
+                if op["r"] < len(resolvers) and not any(len(nm) != len(nm.encode()) for nm in names):
+                    resolvers[op["r"]].ignorecase = op["ic"]
+                    resolvers[op["r"]].relax = op["rx"]
+                    flags[op["r"]] = [op["ic"], op["rx"]]
+                    res.bump("flag_changes")
+                continue
             if kind == "maxcache":
                 resolver_mod._MAXCACHE = op["v"]
                 res.bump("knob_changes")
@@ -372,7 +398,7 @@ def run(cfg, ops=None, rng=None):
             # glob call
             if op["r"] >= len(resolvers) or op["s"] >= n:
                 continue
-            ic, rx = cfg["resolvers"][op["r"]]
+            ic, rx = flags[op["r"]]
             rsv = resolvers[op["r"]]
             # equal pattern strings are one str object in search and in replay alike
             # (a caller re-using a constant), so identity-keyed memoisation behaves the same
